@@ -31,7 +31,7 @@ func init() {
 	simkit.Register(&simkit.Property{
 		ID: "C02", Level: "exploration", Bubble: true, Run: runC02,
 		Rule: "World D+C, Shutter-service flavour: one real keyper stack (Keyper.processNewBlock with the real RegistrySyncer and MultiEventSyncer on simeth, flavour handlers + middleware, real KeyShareHandler behind the trigger channel, pgsim). Generated: two keyper sets whose newest eon is not started / running / failed / succeeded / restarted (newer eon without result), member or not, activation blocks around the head; state changes between blocks (result arrives, eon restarted); time registrations with timestamps at block time -2..+3 incl. equal; event triggers with expiry around the matching log; block histories of 8-25 blocks with repeated and occasionally non-monotone timestamps; keys-released messages that set the decrypted flag; keyper restarts between blocks (in-memory latestTriggeredTime lost); rpc.eth_error and db.stmt_error. Safety oracle on every value seen on the trigger channel and every DecryptionKeyShares message handed to messaging: identities strictly increasing; each identity registered for a keyper set the node belongs to whose newest eon has a successful DKG at that moment; time-based: some observed block has time > registered timestamp and number >= the eon's activation block; event-based: a matching canonical log in (registration block, expiry]; the identity not marked decrypted at that moment. Non-trivial = a run with a registration whose timestamp equals a processed block's time or an eon state change between two blocks; distinct = distinct trace hashes among those.",
-		Assumptions: []string{"keyper sets have increasing activation blocks (as enforced by shuttermint)", "only safety is stated; no trigger is ever demanded"},
+		Assumptions: []string{"keyper sets have non-decreasing activation blocks (as enforced by shuttermint); 15% of the runs give both sets the same activation block", "only safety is stated; no trigger is ever demanded"},
 		Real:        []string{"shutterservice.Keyper.processNewBlock / maybeTriggerDecryption / shouldTriggerDecryption / resolveDecryptableEon", "RegistrySyncer", "MultiEventSyncer + processors", "shutterservice handlers + middleware (updateEventFlag)", "epochkghandler.KeyShareHandler", "sqlc/pgx", "ethclient/abigen"},
 		Stub:        []string{"execution node (simeth)", "PostgreSQL (pgsim)", "libp2p (simnet)", "DKG (trusted dealer / provisioned rows)"},
 		QuickRuns:   1500, ThoroughRuns: 20000, QuickMinimize: 40, ThoroughMinimize: 200,
@@ -67,6 +67,11 @@ func runC02(r *simkit.Run) {
 	w.provision = func(nd *cNode) {
 		for _, kci := range []int64{1, 2} {
 			st := &c02Set{kci: kci, member: c.Chance(800, "member"), eon: kci * 10, activation: int64(c.Range(0, 6, "activation")) + (kci-1)*7}
+			if kci == 2 && c.Chance(150, "same-activation-block") {
+				// two keyper sets may share an activation block (only non-decreasing is required)
+				st.activation = sets[1].activation
+				r.Probe("sets-share-activation-block")
+			}
 			state := dkgSuccess
 			switch c.Weighted([]int{6, 2, 2, 1}, "eon-state") {
 			case 0:
@@ -335,7 +340,7 @@ func runC02(r *simkit.Run) {
 				st.eon++
 				st.hasResult, st.success = false, false
 				w.task(func() {
-					if err := q.InsertEon(nd.ctx, database.InsertEonParams{Eon: st2.eon, Height: int64(100 + h), ActivationBlockNumber: st2.activation, KeyperConfigIndex: st2.kci}); err != nil {
+					if err := q.InsertEon(nd.ctx, database.InsertEonParams{Eon: st2.eon, Height: st2.kci*1000 + int64(100+h), ActivationBlockNumber: st2.activation, KeyperConfigIndex: st2.kci}); err != nil {
 						r.Eventf("state change failed: %v", err)
 					}
 				})
@@ -415,6 +420,13 @@ func runC02(r *simkit.Run) {
 				okSet := false
 				for _, g := range regs {
 					if bytes.Equal(g.identity, id) && g.kci == sh.Eon {
+						okSet = true
+					}
+					// A trigger names its keyper set by the set's activation block only; two sets that share
+					// one are indistinguishable to the share handler, which then answers for the later one.
+					// The statement asks for "a keyper set it belongs to whose key generation succeeded" -
+					// judged above for the named set and on the trigger channel for the registered one.
+					if bytes.Equal(g.identity, id) && sets[int64(g.kci)] != nil && sets[int64(sh.Eon)] != nil && sets[int64(g.kci)].activation == sets[int64(sh.Eon)].activation {
 						okSet = true
 					}
 				}
